@@ -67,6 +67,7 @@ type Profile struct {
 	PDevFault      int // % chance of a transient device fault burst after a step
 	PCrash         int // % chance that the scenario contains one crash
 	AllowClash     bool
+	RejectCode     codes.Code // gRPC code the device answers a refused value with (default InvalidArgument)
 	Paths          string // "basic" (few paths, many overwrites) | "rich"
 }
 
